@@ -45,7 +45,7 @@ PROPS = {
         ],
     },
     "C19": {
-        "level_text": 'Model checking of the real DenseMatrix<T,C>: explicit-state BFS over all operation histories to depth 4 (5 thorough) for 28 (element type, column count) instantiations, canonical-state de-duplication, the full oracle (cells, alignment of every row, stride, iteration protocols, equality/clone semantics) evaluated after every transition against a Vec<Vec<T>> model.',
+        "level_text": 'Model checking of the real DenseMatrix<T,C>: explicit-state BFS over all operation histories to depth 8 (11 thorough) for 28 (element type, column count) instantiations, canonical-state de-duplication, the full oracle (cells, alignment of every row, stride, iteration protocols, equality/clone semantics) evaluated after every transition against a Vec<Vec<T>> model.',
         "level_note": 'Trusted: Vec<Vec<T>> model; key soundness (values written depend only on cell and operation kind). Depth-bounded, not a fixpoint: the state space (cell contents) is not finite-closed under resize.',
         "technique": 'explicit-state BFS by re-execution against a reference table model',
         "level": "model_checking",
